@@ -52,7 +52,7 @@ def one(sid, checks):
 
 def main():
     args = sys.argv[1:]
-    ids = sorted(x for x in os.listdir(os.path.join(VERIF, "seeded")) if not x.startswith("_"))
+    ids = sorted(x for x in os.listdir(os.path.join(VERIF, "seeded")) if not x.startswith("_") and os.path.isdir(os.path.join(VERIF, "seeded", x)))
     if args == ["all"]:
         args = ids
     elif args == ["missed"]:
